@@ -110,6 +110,70 @@ void arithCase(Ctx &c, Rng &g) {
     }
     (void)om;
     {
+      // forms over every order pair of the sweep (C06, C07): scalar product,
+      // BilinearForm{X<1>, Dx<1>}, BilinearForm{Dx<2>, X<2>} with the operands
+      // swapped, LinearForm{X<2>}, LinearForm{} against the exact integrals
+      using namespace bspline::operators;
+      using namespace bspline::integration;
+      auto absInt = [](const Poly &S, const R &h) {
+        R r(0), hp = h;
+        for (size_t j = 0; j < S.size(); j++) {
+          r += S[j] * 2 * hp / R(j + 1);
+          hp *= h;
+        }
+        return r;
+      };
+      const size_t lo = std::max(wa.start, wb.start), hi = std::min(wa.end, wb.end);
+      R sp(0), spS(0), xd(0), xdS(0), dx(0), dxS(0);
+      const Den xa = model::dmulx(da, 1), ddb = model::dderiv(db, 1);
+      const Den x2b = model::dmulx(db, 2), d2a = model::dderiv(da, 2);
+      const AbsM xaA = absMulX(aa, 1, pts), ddbA = absDeriv(ab, 1);
+      const AbsM x2bA = absMulX(ab, 2, pts), d2aA = absDeriv(aa, 2);
+      if (!wa.empty() && !wb.empty())
+        for (size_t k = lo; k + 1 < hi; k++) {
+          const R h = (pts[k + 1] - pts[k]) / 2;
+          sp += model::pintegral(model::pmul(da.pc[k], db.pc[k]), pts[k], pts[k + 1]);
+          spS += absInt(model::pmul(aa[k], ab[k]), h);
+          xd += model::pintegral(model::pmul(xa.pc[k], ddb.pc[k]), pts[k], pts[k + 1]);
+          xdS += absInt(model::pmul(xaA[k], ddbA[k]), h);
+          dx += model::pintegral(model::pmul(x2b.pc[k], d2a.pc[k]), pts[k], pts[k + 1]);
+          dxS += absInt(model::pmul(x2bA[k], d2aA[k]), h);
+        }
+      auto judgeF = [&](const char *prop, const char *what, const T &val, const R &ex,
+                        const R &S) {
+        Verdict v = agreeScalar(val, ex, S);
+        if constexpr (!ST<T>::exact) c.maxval(std::string("ratio:") + what, v.ratio);
+        c.count(std::string("forms:sweep:") + what);
+        if (!v.ok) {
+          c.violation(prop, std::string("sweep/") + what, sw.ctx + " " + what + ": " + v.why);
+          if constexpr (!ST<T>::exact)
+            if (family && oa + ob <= 6)
+              c.violation("C16", std::string("sweep/") + what, sw.ctx + " " + v.why);
+        }
+      };
+      judgeF("C06", "scalar-product", ScalarProduct{}(a, b), sp, spS);
+      judgeF("C06", "scalar-product-swapped", ScalarProduct{}(b, a), sp, spS);
+      judgeF("C06", "bilinear-X-Dx", BilinearForm{X<1>{}, Dx<1>{}}(a, b), xd, xdS);
+      judgeF("C06", "bilinear-X2-Dx2-swapped", BilinearForm{X<2>{}, Dx<2>{}}(b, a), dx, dxS);
+      R lf(0), lfS(0), l2(0), l2S(0);
+      const Den x2 = model::dmulx(da, 2);
+      const AbsM x2A = absMulX(aa, 2, pts);
+      for (size_t k = wa.start; k + 1 < wa.end; k++) {
+        const R h = (pts[k + 1] - pts[k]) / 2;
+        lf += model::pintegral(x2.pc[k], pts[k], pts[k + 1]);
+        lfS += absInt(x2A[k], h);
+      }
+      for (size_t k = wb.start; k + 1 < wb.end; k++) {
+        const R h = (pts[k + 1] - pts[k]) / 2;
+        l2 += model::pintegral(db.pc[k], pts[k], pts[k + 1]);
+        l2S += absInt(ab[k], h);
+      }
+      judgeF("C07", "linear-X2", LinearForm{X<2>{}}(a), lf, lfS);
+      judgeF("C07", "linear-identity", LinearForm{}(b), l2, l2S);
+      c.count(std::string("forms:sweep:place:") + placementName(pl));
+      c.count("forms:sweep:orders:" + std::to_string(oa) + "," + std::to_string(ob));
+    }
+    {
       const std::string lie = predicateNearMisses(a, g);
       if (!lie.empty()) c.violation("C15", "sweep/near-miss", sw.ctx + ": " + lie);
       const size_t lo = std::max(wa.start, wb.start), hi = std::min(wa.end, wb.end);
